@@ -33,6 +33,11 @@ def run(chk, cases, jobs, label):
             if "set_error" in rv:
                 chk.coverage.setdefault("value_rejected_by_api", 0)
                 chk.coverage["value_rejected_by_api"] += 1
+                # the generators only produce values that are well-typed for the schema: the API refusing one means this
+                # message cannot be built, let alone encoded canonically
+                chk.violation("set-%s-%d-%d" % (label, j["id"], vi),
+                              dict(codec.describe(cases, jobs, res, j["id"], vi),
+                                   kind="a value that is well-typed for the schema is rejected by the Python API (%s)" % rv["set_error"]))
                 continue
             entries.append((j["id"], vi, rv))
             t = cases[j["id"]][2]
